@@ -25,3 +25,17 @@ Proof.
   induction l as [|x r IH]; intros tbl; [reflexivity|]. cbn [convert_all].
   destruct (convert_one podman ex kf mn (l_unit x) (l_path x) (i_type (l_info x)) tbl) as [[[svc sp] tbl']|e [t|]| |]; cbn [map fst]; rewrite IH; reflexivity.
 Qed.
+
+(* a file that does not load (syntax error, unsupported type, ...) takes no part in the conversions: every other result is the same *)
+Theorem unloadable_file_changes_nothing podman ex kf mn files1 files2 p t :
+  (forall u i, load_one p t <> LOk u i) ->
+  snd (process_files podman ex kf mn (files1 ++ (p, t) :: files2)) = snd (process_files podman ex kf mn (files1 ++ files2)).
+Proof.
+  intros H. unfold process_files. cbv zeta. cbn [snd].
+  assert (E : flat_map (fun q : str * load_res => match snd q with LOk u i => [{| l_path := fst q; l_unit := u; l_info := i |}] | _ => [] end)
+                (map (fun f : str * str => (fst f, load_one (fst f) (snd f))) (files1 ++ (p, t) :: files2)) =
+              flat_map (fun q : str * load_res => match snd q with LOk u i => [{| l_path := fst q; l_unit := u; l_info := i |}] | _ => [] end)
+                (map (fun f : str * str => (fst f, load_one (fst f) (snd f))) (files1 ++ files2))).
+  { rewrite !map_app, !flat_map_app. cbn [map flat_map fst snd]. destruct (load_one p t) as [u i| | |] eqn:El; [exfalso; exact (H u i eq_refl)| | |]; reflexivity. }
+  rewrite E. reflexivity.
+Qed.
